@@ -27,10 +27,11 @@ def _mods():
 class _Conv:
     """install symbolic nutrition settings into the process-wide Food.conversions for the duration of a path."""
 
-    def __init__(self, E, fd, include_fat=True, include_protein=True):
+    def __init__(self, E, fd, include_fat=True, include_protein=True, earlier=None):
         self.fd = fd
         self.E = E
         self.inc = (include_fat, include_protein)
+        self.earlier = earlier      # flag settings an EARLIER call left behind; its numbers are arbitrary (symbolic)
 
     def __enter__(self):
         E, fd = self.E, self.fd
@@ -42,6 +43,14 @@ class _Conv:
         E.assume(self.kd <= 1e5)
         E.assume(self.fat <= 1e4)
         E.assume(self.pro <= 1e4)
+        if self.earlier is not None:
+            # the settings object is process-wide: whatever an earlier call stored is still there when this call starts
+            c = fd.Food.conversions
+            for a in STALE_ATTRS:
+                setattr(c, a, E.real("earlier_" + a))
+            c.include_fat, c.include_protein = self.earlier
+            c.exclude_fat, c.exclude_protein = (not self.earlier[0]), (not self.earlier[1])
+            c.NUTRITION_PROPERTIES_ASSIGNED = True
         fd.Food.conversions.set_nutrition_requirements(self.kd, self.fat, self.pro, self.inc[0], self.inc[1], self.pop)
         return self
 
@@ -49,6 +58,9 @@ class _Conv:
         self.fd.Food.conversions.__dict__.clear()
         self.fd.Food.conversions.__dict__.update(self.saved)
         return False
+
+
+STALE_ATTRS = ["days_in_month", "kcals_daily", "fat_daily", "protein_daily", "kcals_monthly", "fat_monthly", "protein_monthly", "billion_kcals_needed", "thou_tons_fat_needed", "thou_tons_protein_needed", "population"]
 
 
 def _rel_eq(a, b):
@@ -226,7 +238,7 @@ def worker_anchor(case, seed):
     form = case["form"]
 
     def h(E):
-        with _Conv(E, fd, case["inc"][0], case["inc"][1]) as cv, patched(fd, uc, isinstance_=True):
+        with _Conv(E, fd, case["inc"][0], case["inc"][1], earlier=case.get("earlier")) as cv, patched(fd, uc, isinstance_=True):
             kd, fa, pr, pop = cv.kd, cv.fat, cv.pro, cv.pop
             # a population's exact monthly requirement, written from first principles (30-day month; 1 thousand tons = 1e9 g)
             need = [kd * 30 * pop / 1e9, fa * 30 * pop / 1e9, pr * 30 * pop / 1e9]
@@ -267,6 +279,13 @@ def replay_food(case, cx):
     bad = []
     try:
         inc = case.get("inc", [True, True])
+        if case.get("earlier") is not None:
+            c = fd.Food.conversions
+            for a in STALE_ATTRS:
+                setattr(c, a, m.get("earlier_" + a, 1.0))
+            c.include_fat, c.include_protein = case["earlier"]
+            c.exclude_fat, c.exclude_protein = (not case["earlier"][0]), (not case["earlier"][1])
+            c.NUTRITION_PROPERTIES_ASSIGNED = True
         fd.Food.conversions.set_nutrition_requirements(m["kcals_daily"], m["fat_daily"], m["protein_daily"], inc[0], inc[1], m["population"])
         kd, fa, pr, pop = m["kcals_daily"], m["fat_daily"], m["protein_daily"], m["population"]
         form = case["form"]
@@ -357,7 +376,10 @@ def validate_encoding(rep):
 def main(tier, seed, only=None):
     rep = vlib.Report(PID, tier, seed)
     thorough = tier == "thorough"
-    validate_encoding(rep)
+    try:
+        validate_encoding(rep)
+    except Exception as e:   # noqa  the real code raised on a concrete validation sample: the symbolic groups still run and decide; without a violation the run is inconclusive
+        rep.fail_inconclusive("concrete validation of the encoding could not run: %s: %s" % (type(e).__name__, str(e)[:200]))
     nparts = 10
     tab_cases = [dict(nutrient=n, kind="pairs", part=0, nparts=1) for n in range(3)] + \
                 [dict(nutrient=n, kind="triples", part=p, nparts=nparts) for n in range(3) for p in range(nparts)]
@@ -374,9 +396,10 @@ def main(tier, seed, only=None):
              functions=["Food.in_units", "UnitConversions.get_conversion", "Food.__init__"],
              bounds="3 forms (total, per month, each month with 2 months) x 6 target triples covering every base unit name in every nutrient position; round trip and one intermediate hop each",
              symbolic="the four settings and the quantity's numbers (>= 0)", assumptions=["settings > 0"], stubs=STUBS[:3] + ["food.isinstance accepts SymReal as float"], outside=["series longer than 2 months (conversion is elementwise)"]),
-        dict(name="anchors", fn="worker_anchor", cases=[dict(form=f, inc=i) for f in forms for i in ([[True, True], [False, False]] + ([[True, False], [False, True]] if thorough else []))], replay=replay_food,
+        dict(name="anchors", fn="worker_anchor", cases=[dict(form=f, inc=i) for f in forms for i in ([[True, True], [False, False]] + ([[True, False], [False, True]] if thorough else []))] +
+             [dict(form=f, inc=i, earlier=e) for f in (forms if thorough else ["total"]) for i in ([True, True], [False, False]) for e in ([True, True], [False, False], [True, False])], replay=replay_food,
              functions=["Food.in_units_percent_fed", "in_units_kcals_equivalent", "in_units_kcals_grams_grams_per_person", "in_units_billions_fed", "in_units_bil_kcals_thou_tons_thou_tons_per_month"],
-             bounds="3 forms x include-fat/protein settings", symbolic="the four settings", assumptions=["settings > 0", "requirement written from first principles: daily x 30 x population / 1e9"],
+             bounds="3 forms x include-fat/protein settings; and the same after an EARLIER call left arbitrary numbers and any flag setting in the process-wide settings object", symbolic="the four settings; the 11 numbers an earlier call stored", assumptions=["settings > 0", "requirement written from first principles: daily x 30 x population / 1e9"],
              stubs=["food.isinstance accepts SymReal as float"], outside=[]),
     ]
     vlib.run_groups(rep, MOD, groups, seed, only)
